@@ -37,6 +37,9 @@ CHANGE = {"Mark": "Mark: q{n}", "Wait": "Wait: 0.4s", "Long": "Long: 4", "Block"
           "Inst": "Long: 2", "Call macro": "Call macro: ZZ", "Macro": "Macro: ZZ", "End block": "End blocks"}
 
 
+VERSION_MODE = None      # how the edits of the current exploration are numbered (see Run.set_method); set by explore_program
+
+
 def _fingerprint(run: Run):
     return (tuple(run.marks()), json.dumps(run.method_state(), sort_keys=True), len(run.cmd_events),
             tuple(run.uod.command_instances.keys()), run.state())
@@ -44,13 +47,13 @@ def _fingerprint(run: Run):
 
 def drive(lines, schedule, horizon, observe=("mstate",)):
     """schedule: {tick: new_lines}  (edit applied *before* that tick).  Returns (run, request records, quiesced_at)."""
-    run = Run(lines, observe=observe)
+    run = Run(lines, observe=observe, initial_version=3 if VERSION_MODE else 0)      # numbered edits: the method is at version 3 already
     recs = []
     last_fp, stable = None, 0
     quiesced = None
     for t in range(horizon):
         if t in schedule:
-            recs.append(run.set_method(schedule[t]))
+            recs.append(run.set_method(schedule[t], version_mode=VERSION_MODE))
             stable = 0
         if t == X_TRUE_FROM:
             run.set_input("In1", 2.0)
@@ -347,6 +350,20 @@ SECOND_KINDS = ("append-end", "append-body", "change-started", "change-executed"
 
 
 def explore_program(item):
+    global VERSION_MODE
+    # item[3] (optional): the edits of this exploration carry an explicit version number - "same" as / "next" above the engine's
+    VERSION_MODE = item[3] if len(item) > 3 else None
+    try:
+        res = _explore_program(item[:3])
+    finally:
+        mode, VERSION_MODE = VERSION_MODE, None
+    if mode:
+        # (same signatures as without a version number: the cause of a deviation does not depend on how the edit is numbered)
+        res["viol"] = [(sig, what + f" [edits numbered '{mode}']", dict(rep, version_mode=mode)) for sig, what, rep in res["viol"]]
+    return res
+
+
+def _explore_program(item):
     forest, horizon, two_edits = item
     lines0 = pgen.to_lines(forest)
     res = {"viol": [], "exec": 0, "compared": 0, "unsettled": 0, "reject": 0, "nontrivial": 0, "skipped": None,
@@ -452,6 +469,10 @@ def corpus(ctx):
     # openers with an empty body are silently re-nested by the parser (C17 finding): such texts do not mean what the
     # generator intends, so they are left out here
     items = [it for it in items if pgen.no_empty_openers(it[0])]
+    # edits that carry an explicit version number, equal to / one above the engine's current one (1-statement programs and {M,W,L} pairs)
+    small = [it for it in items if len(pgen.kinds_flat(it[0])) == 1 or (len(it[0]) == 2 and set(pgen.kinds_flat(it[0])) <= {"M", "W", "L"})]
+    items += [(it[0], it[1], False, mode) for it in small for mode in ("same", "next")]
+    bounds += "; the 1-statement programs and pairs over {M,W,L} again with edits numbered 'same' / 'next'"
     # methods with an instruction that fails (unknown instruction / UOD command that raises): rejected edits while the run
     # stands in its error state
     failing = [f for f in pgen.programs(["M", "W", "Bogus", "Boom"], 3, depth=0) if {"Bogus", "Boom"} & set(pgen.kinds_flat(f))]
@@ -496,6 +517,16 @@ def run(ctx):
 
 
 def replay(data):
+    global VERSION_MODE
+    VERSION_MODE = data.get("version_mode")
+    try:
+        out = _replay(data)
+    finally:
+        VERSION_MODE = None
+    return out
+
+
+def _replay(data):
     lines0 = [(f"L{i}", c) for i, c in enumerate(data["program"])]
     horizon = 56
     edits = data["edits"]
